@@ -430,7 +430,10 @@ def replay_file(path, out=sys.stdout):
     chk = Check(prop, doc["engine"], doc.get("tier", "quick"), 0, out)
     chk.pool = Pool(doc["engine"], workers=1)
     try:
-        spec = chk.trace_spec(doc["config"], doc["trace"], avoid=False, extra=doc.get("replay_extra"))
+        # witnesses of known findings replay on unmodified amoco (no undo / no carve-out);
+        # any other replay file reproduces what the check saw (listed sites undone)
+        is_known = os.sep + os.path.join("replays", "known") + os.sep in os.path.abspath(path) or os.sep + os.path.join("replays", "fixed") + os.sep in os.path.abspath(path)
+        spec = chk.trace_spec(doc["config"], doc["trace"], avoid=not is_known, extra=doc.get("replay_extra"))
         r = chk.pool.map([spec], chunk=1)[0]
     finally:
         chk.pool.close()
